@@ -375,6 +375,9 @@ func (c *Ctx) mergeIf(st *State, x *ast.IfStmt, cond string) *State {
 	if x.Else != nil {
 		r2 = run(s2, x.Else)
 	}
+	if r1 != nil && r2 != nil && !sameLocks(r1, r2) {
+		return nil
+	}
 	if r1 == nil || r2 == nil || c.aborted != savedAbort || r1.epoch != st.epoch || r2.epoch != st.epoch {
 		if r1 != nil && r2 != nil && c.aborted == savedAbort {
 			c.note("if-merge gave up (a branch havocs the whole heap) at " + c.pos(x))
@@ -392,6 +395,7 @@ func (c *Ctx) mergeIf(st *State, x *ast.IfStmt, cond string) *State {
 		}
 	}
 	m := st.clone()
+	m.locks = r1.clone().locks
 	m.pc = m.pc[:base]
 	// guarded facts of each branch
 	for _, p := range r1.pc[base+1:] {
